@@ -361,7 +361,14 @@ class PVLParser(object):
                             if not keep_parsing:
                                 raise ve
                         except Exception:
-                            raise ve
+                            # The Begin-Aggregation-Statement (and maybe
+                            # more) has already been consumed, so the caller
+                            # cannot just try some other way to parse this.
+                            tokens.throw(
+                                ValueError,
+                                f'In the Aggregation Block "{block_name}": '
+                                f"{ve}",
+                            )
 
         return block_name, agg
 
